@@ -87,19 +87,31 @@ void h_mem_rem(void) {
 #define POS 1
 #endif
 static int gh_len; static char* cv_vs_dst; static int cv_vsn_calls, cv_vs_calls;
-int vsnprintf(char* b, size_t n, const char* fmt, va_list va) { cv_vsn_calls++; __CPROVER_assert(b == NULL && n == 0, "length probe"); return gh_len; }
+/* assumed libc contracts: the formatted text is gh_len characters 'x'; vsnprintf(b, n, ..) writes at most n-1 of them plus a
+ * terminator (nothing when n == 0) and returns gh_len; vsprintf writes all of them plus the terminator and returns gh_len */
+int vsnprintf(char* b, size_t n, const char* fmt, va_list va) {
+  cv_vsn_calls++;
+  if (n > 0) { __CPROVER_assert(__CPROVER_w_ok(b, n), "[C14][C16] vsnprintf is given a buffer of the size it is told"); size_t k = 0; for (; k + 1 < n && k < (size_t)gh_len; k++) b[k] = 'x'; b[k] = 0; }
+  return gh_len;
+}
 int vsprintf(char* dst, const char* fmt, va_list va) {
   cv_vs_calls++; cv_vs_dst = dst;
   __CPROVER_assert(__CPROVER_w_ok(dst, gh_len + 1), "[C14][C16] formatting never writes outside the destination: room for the text and its terminator");
   for (int i = 0; i < gh_len; i++) dst[i] = 'x'; dst[gh_len] = 0; return gh_len;
 }
 static int call_format_to(var self, int pos, const char* fmt, ...) { va_list va; va_start(va, fmt); int r = String_Format_To(self, pos, fmt, va); va_end(va); return r; }
+#ifndef GLEN
+#define GLEN -1
+#endif
 void h_format_to(void) {
-  build(); gh_len = nondet_int(); __CPROVER_assume(gh_len >= 0 && gh_len <= 3);
+  build();
+  if (GLEN >= 0) gh_len = GLEN; else { gh_len = nondet_int(); __CPROVER_assume(gh_len >= 0 && gh_len <= 3); }
   REFUSED(call_format_to(sa, POS, "%s", "x"), "format_to")
   int r = call_format_to(sa, POS, "%s", "x");
-  ASSERT(r == gh_len && cv_vsn_calls == 1 && cv_vs_calls == 1 && cv_vs_dst == sa->val + POS, "[C14] format_to writes at the given position and returns the number of characters written");
+  ASSERT(r == gh_len, "[C14] format_to returns the number of characters written");
   for (int i = 0; i < POS && i < LA; i++) ASSERT(sa->val[i] == in_a[i], "[C14] text before the position is preserved");
+  ASSERT(__CPROVER_r_ok(sa->val, POS + gh_len + 1), "[C16] the String stays NUL-terminated inside its own allocation after a formatted write");
+  for (int i = 0; i < gh_len; i++) ASSERT(sa->val[POS + i] == 'x', "[C14][C16] the String holds exactly the characters that were formatted, at the given position");
   ASSERT(sa->val[POS + gh_len] == 0, "[C16] the String stays NUL-terminated after a formatted write");
   COVER_ALT(1, "format_to");
 }
